@@ -8,7 +8,9 @@ MANIFEST = {
             "model, for every forest accepted by check_init, every thread count, every interleaving: when a panel is handed "
             "out all proper descendant panels are DONE or BUSY, the not-DONE ones form exactly one chain and the returned "
             "bcol is its bottom (pipeline_handout); DONE panels have only DONE descendants; each panel is worked on once; "
-            "waits only go down the tree. Tie to the C code: lock-step state-space walk of model vs real scheduler (shared "
+            "waits only go down the tree; column level (ColRelease.v): for every sequence of hand-out / finalise / release / consume "
+            "operations every consumed column was final when consumed, and the statement is refuted when the flag may be cleared "
+            "before the column is final. Tie to the C code: lock-step state-space walk of model vs real scheduler (shared "
             "with C04, incl. the pipeline oracle evaluated on the implementation alone), and a trace monitor over real "
             "threaded runs with seeded perturbation: every supernode read in panel_bmod happens after the release of all "
             "its columns, each (panel, source supernode) update at most once, only smaller columns are read; plus "
